@@ -94,6 +94,7 @@ FIXED = [
     ("C10", "7133da3", "the lookaround sub-matchers ignored the zero-advance guards of * and +"),
     ("C13", "40ef38e", "`var a={b:1}; ((a).b)` was a syntax error: after an inner ')' the parser did not continue with member access, calls or ++/--"),
     ("C12", "35564e0", "a RegExp created by one eval and used by a later eval on the same context was judged against the first eval's clock: spurious TimeLimitError"),
+    ("C02", "094d6a2", "`[1].map(function g(x){return [1].map(g)})` and `function f(){ return f.call(null) } f()` ended in a Python RecursionError instead of MemoryLimitError: script code nested through natives was not counted against any budget"),
     ("C04", "5541b57", "`a.reduce(function(acc,x){a.pop();return acc+x})` (and reduceRight) let a raw IndexError escape: the loop bound was computed before the callbacks ran"),
 ]
 
